@@ -27,7 +27,8 @@ def slotOf : String → Option Slot
     | none => none
 
 def cmpOf (s : String) : Cmp := if s == "le" then .le else .lt
-def resortOf (s : String) : Resort := if s == "own" then .own else if s == "int64" then .int64 else .none
+def resortOf (s : String) : Resort :=
+  if s == "own" then .own else if s == "int64" then .int64 else if s == "invalidate" then .invalidate else .none
 
 def optT : String → Option (Option Int)
   | "-" => some none
@@ -83,6 +84,21 @@ def step (d : DSt) (line : String) : DSt × String :=
       ({ d with s := stepSet d.cfg d.s { key := k, ct := ct, val := v, created := c, updated := u, expire := e } }, "ok")
     | _, _, _, _, _ => (d, "bad-op")
   | ["del", k] => ({ d with s := stepDel d.s k }, "ok")
+  | ["inc", k, dl, e] =>
+    match dl.toInt?, e.toInt? with
+    | some dl, some e => ({ d with s := stepInc d.cfg d.s k dl e }, "ok")
+    | _, _ => (d, "bad-op")
+  | ["shiftexp"] =>
+    if d.s.store.isEmpty then (d, "err noswamp") else
+    let l := shiftList d.cfg d.s
+    let p := (stepBuild d.cfg d.s expireAll).pairs (phys d.cfg .expire)
+    let d' := { d with s := stepShiftExpired d.cfg d.s }
+    if p.nd || p.broken then (d', "nd" ++ flagStr (findingOf d.cfg expireAll d.s.store p.causes))
+    else
+      let fl := if specOk l expireAll d.s.store then [] else
+        (match findingOf d.cfg expireAll d.s.store p.causes with | [] => ["C07-unexplained"] | fs => fs)
+      (d', "r " ++ ",".intercalate (l.map (·.key)) ++ flagStr fl)
+  | ["reload"] => ({ d with s := if d.s.store.isEmpty then d.s else stepReload d.s }, "ok")
   | ["q", idx, ord, fr, lim, ft, tt, _via] =>
     match slotOf idx, fr.toNat?, lim.toNat?, optT ft, optT tt with
     | some sl, some fr, some lim, some ft, some tt =>
@@ -123,7 +139,7 @@ def run (args : List String) : IO UInt32 := do
     updRefreshCreated := yes kv "updRefreshCreated", updRefreshUpdated := yes kv "updRefreshUpdated",
     updRefreshValue := yes kv "updRefreshValue", updRefreshExpireOnFlag := yes kv "updRefreshExpireOnFlag",
     typeChangeDetected := yes kv "typeChangeDetected", valueShared := yes kv "valueShared",
-    flagsSticky := yes kv "flagsSticky" }
+    flagsSticky := yes kv "flagsSticky", setVoidClearsTyped := yes kv "setVoidClearsTyped" }
   lineLoop step { cfg := cfg, s := St.init }
   return 0
 
